@@ -140,4 +140,174 @@ theorem chain_shift (k : Nat) (g : Mem) (lim : LenSource) (first : Bool) (nh : N
     chain g lim first nh frag (k + o) (k + stop) = shChain k (chain (shM k g) lim first nh frag o stop) :=
   chain_shift' k g (shM k g) (fun _ => rfl) lim first nh frag o stop
 
+/-! ### C. one step -/
+
+theorem g16_sh (k : Nat) (g g' : Mem) (hg : ∀ i, g' i = g (k + i)) (i : Nat) : g16 g' i = g16 g (k + i) := by
+  simp [g16, hg, Nat.add_assoc]
+
+theorem v4Fragmented_sh (k : Nat) (g g' : Mem) (hg : ∀ i, g' i = g (k + i)) (o : Nat) :
+    v4Fragmented g' o = v4Fragmented g (k + o) := by
+  simp [v4Fragmented, g16_sh k g g' hg, Nat.add_assoc]
+
+/-- `C` is the context `c` moved by `k`, stated by equations: rewriting with them is a proper `simp`
+    rewrite (a definitional unfolding of `shCtx` inside the conditions of `step` would leave stale
+    `Decidable` instances behind, and `split`/`generalize` would no longer see both sides alike) -/
+structure ShC (k : Nat) (c C : Ctx) : Prop where
+  off : C.off = k + c.off
+  stop : C.stop = k + c.stop
+  lim : C.lim = c.lim
+  nExt : C.nExt = c.nExt
+
+theorem ShC.avail {k : Nat} {c C : Ctx} (h : ShC k c C) : C.avail = c.avail := by
+  simp [Ctx.avail, h.off, h.stop, Nat.add_sub_add_left]
+
+theorem ShC.eq {k : Nat} {c C : Ctx} (h : ShC k c C) : C = shCtx k c := by
+  obtain ⟨h1, h2, h3, h4⟩ := h
+  cases C; cases c; simp_all [shCtx]
+
+theorem shC_shCtx (k : Nat) (c : Ctx) : ShC k c (shCtx k c) := ⟨rfl, rfl, rfl, rfl⟩
+
+theorem avail_mk (a b : Nat) (l : LenSource) (n : Nat) : (Ctx.mk a b l n).avail = b - a := by
+  simp [Ctx.avail]
+
+macro "shclose" : tactic =>
+  `(tactic| simp_all [shStepR, shFault, mkFault, Ctx.avail, Nat.add_sub_add_left, shPacket_setLink,
+      shPacket_setTp, shPacket_setNet, shPacket_addExt, shLink, shTp, shNet, shExt, shW, shCtx, shIp, shPl,
+      shSlots, ExtSlots.none, Nat.add_assoc])
+
+section
+variable (k : Nat) (g g' : Mem) (hg : ∀ i, g' i = g (k + i)) (lax : Bool) (p : Packet) (c C : Ctx)
+  (hc : ShC k c C)
+include hg hc
+
+theorem step_shift_eth : step lax g (shPacket k p) .eth C = shStepR k (step lax g' p .eth c) := by
+  have hC := hc.eq
+  simp only [step, hc.off, hc.stop, hc.lim, hc.nExt, hc.avail, hg, g16_sh k g g' hg, Nat.add_assoc]
+  repeat' split
+  all_goals shclose
+
+theorem step_shift_sll : step lax g (shPacket k p) .sll C = shStepR k (step lax g' p .sll c) := by
+  have hC := hc.eq
+  simp only [step, hc.off, hc.stop, hc.lim, hc.nExt, hc.avail, hg, g16_sh k g g' hg, Nat.add_assoc]
+  repeat' split
+  all_goals shclose
+
+theorem step_shift_ipAny : step lax g (shPacket k p) .ipAny C = shStepR k (step lax g' p .ipAny c) := by
+  have hC := hc.eq
+  simp only [step, hc.off, hc.stop, hc.lim, hc.nExt, hc.avail, hg, g16_sh k g g' hg, Nat.add_assoc]
+  repeat' split
+  all_goals shclose
+
+theorem step_shift_tp (num : Nat) :
+    step lax g (shPacket k p) (.tp num) C = shStepR k (step lax g' p (.tp num) c) := by
+  have hC := hc.eq
+  simp only [step, hc.off, hc.stop, hc.lim, hc.nExt, hc.avail, hg, g16_sh k g g' hg, Nat.add_assoc]
+  repeat' split
+  all_goals shclose
+
+theorem step_shift_macsec :
+    step lax g (shPacket k p) (.ether 0x88e5) C = shStepR k (step lax g' p (.ether 0x88e5) c) := by
+  have hv : isVlanType 0x88e5 = false := by decide
+  have hC := hc.eq
+  simp only [step, hv, if_true, if_false, Bool.false_eq_true, hc.off, hc.stop, hc.lim, hc.nExt, hc.avail, hg,
+    g16_sh k g g' hg, Nat.add_assoc]
+  generalize g (k + c.off) = tci
+  generalize g (k + (c.off + 1)) = slb
+  have h6' : ∀ a b, 6 ≤ secTagLen a b := by intro a b; unfold secTagLen; omega
+  generalize hhl : secTagLen (decide (tci / 32 % 2 = 1)) (decide (tci / 8 % 2 = 0 ∧ tci / 4 % 2 = 0)) = hl
+  have hl6 := h6' (decide (tci / 32 % 2 = 1)) (decide (tci / 8 % 2 = 0 ∧ tci / 4 % 2 = 0))
+  rw [hhl] at hl6
+  -- the ether type of an unmodified frame sits in the last two octets of the SecTAG
+  have hsub : k + (c.off + hl) - 2 = k + (c.off + hl - 2) := by omega
+  clear hhl h6'
+  generalize (if tci / 8 % 2 = 0 ∧ tci / 4 % 2 = 0 then slb % 64 - 2 else slb % 64) = plen
+  by_cases hs0 : slb % 64 = 0 <;> by_cases hlt : c.avail < hl + plen <;> cases lax <;>
+    simp only [hs0, hlt, if_true, if_false, Bool.false_eq_true] <;> (repeat' split) <;> shclose
+
+theorem step_shift_ether (et : Nat) :
+    step lax g (shPacket k p) (.ether et) C = shStepR k (step lax g' p (.ether et) c) := by
+  by_cases hv : isVlanType et = true
+  · have hC := hc.eq
+    simp only [step, hv, if_true, hc.off, hc.stop, hc.lim, hc.nExt, hc.avail, hg, g16_sh k g g' hg, Nat.add_assoc]
+    repeat' split
+    all_goals shclose
+  · by_cases hm : et = 0x88e5
+    · subst hm; exact step_shift_macsec k g g' hg lax p c C hc
+    · have hC := hc.eq
+      simp only [step, hv, hm, if_true, if_false, Bool.false_eq_true, hc.off, hc.stop, hc.lim, hc.nExt, hc.avail,
+        hg, g16_sh k g g' hg, Nat.add_assoc]
+      repeat' split
+      all_goals shclose
+
+theorem step_shift_ipv4 : step lax g (shPacket k p) .ipv4 C = shStepR k (step lax g' p .ipv4 c) := by
+  have hC := hc.eq
+  have hb : ∀ u f hl total, bound lax C u f hl total = shBound k (bound lax c u f hl total) := by
+    intro u f hl total; rw [hC]; exact bound_shift k lax c u f hl total
+  simp only [step, hc.off, hc.stop, hc.lim, hc.nExt, hc.avail, hg, g16_sh k g g' hg, v4Fragmented_sh k g g' hg, hb,
+    Nat.add_assoc]
+  generalize g (k + c.off) = b0
+  generalize g16 g (k + (c.off + 2)) = tl
+  generalize g (k + (c.off + 9)) = proto
+  generalize v4Fragmented g (k + c.off) = fr
+  generalize bound lax c Unit_.ipv4Packet LenSource.ipv4HeaderTotalLen (b0 % 16 * 4) tl = r
+  rcases r with f | ⟨s, l, i⟩
+  · simp only [shBound]
+    repeat' split
+    all_goals shclose
+  · simp only [shBound, avail_mk, Nat.add_sub_add_left, Nat.add_assoc]
+    generalize b0 % 16 * 4 = hl
+    generalize g (k + (c.off + (hl + 1))) = alb
+    generalize g (k + (c.off + hl)) = nh
+    repeat' split
+    all_goals shclose
+
+theorem step_shift_ipv6 : step lax g (shPacket k p) .ipv6 C = shStepR k (step lax g' p .ipv6 c) := by
+  have hC := hc.eq
+  have hb : ∀ u f hl total, bound lax C u f hl total = shBound k (bound lax c u f hl total) := by
+    intro u f hl total; rw [hC]; exact bound_shift k lax c u f hl total
+  have hch : ∀ lim first nh frag o stop, chain g lim first nh frag (k + o) (k + stop) =
+      shChain k (chain g' lim first nh frag o stop) := chain_shift' k g g' hg
+  simp only [step, hc.off, hc.stop, hc.lim, hc.nExt, hc.avail, hg, g16_sh k g g' hg, hb, Nat.add_assoc]
+  generalize g (k + c.off) = b0
+  generalize g16 g (k + (c.off + 4)) = plen
+  generalize g (k + (c.off + 6)) = nh
+  by_cases h40 : c.avail < 40
+  · simp only [h40, if_true]; shclose
+  · by_cases hver : b0 / 16 ≠ 6
+    · simp only [h40, hver, if_true, if_false]; shclose
+    · simp only [h40, hver, if_true, if_false]
+      by_cases hz : plen = 0 ∧ c.avail > 40
+      · simp only [hz, and_self, if_true, hch]
+        generalize chain g' (inherit c.lim LenSource.slice) true nh false (c.off + 40) c.stop = chf
+        obtain ⟨⟨nx, fr, o'⟩, fo⟩ := chf
+        cases fo <;> simp only [shChain, Option.map] <;> shclose <;> cases fr <;> rfl
+      · simp only [hz, if_false]
+        generalize bound lax c Unit_.ipv6Packet LenSource.ipv6HeaderPayloadLen 40 (40 + plen) = r
+        rcases r with f | ⟨s, l, i⟩
+        · simp only [shBound]; shclose
+        · simp only [shBound, hch]
+          generalize chain g' (inherit c.lim l) true nh false (c.off + 40) s = chf
+          obtain ⟨⟨nx, fr, o'⟩, fo⟩ := chf
+          cases fo <;> simp only [shChain, Option.map] <;> shclose <;> cases fr <;> rfl
+
+/-- one step of the walk commutes with the shift -/
+theorem step_shift_gen (t : Tag) : step lax g (shPacket k p) t C = shStepR k (step lax g' p t c) := by
+  cases t with
+  | done => have hC := hc.eq; simp [step, shStepR, hC]
+  | eth => exact step_shift_eth k g g' hg lax p c C hc
+  | sll => exact step_shift_sll k g g' hg lax p c C hc
+  | ether et => exact step_shift_ether k g g' hg lax p c C hc et
+  | ipAny => exact step_shift_ipAny k g g' hg lax p c C hc
+  | ipv4 => exact step_shift_ipv4 k g g' hg lax p c C hc
+  | ipv6 => exact step_shift_ipv6 k g g' hg lax p c C hc
+  | tp num => exact step_shift_tp k g g' hg lax p c C hc num
+
+end
+
+/-- **one step is placement independent**: the step over the memory seen from offset `k`, with every
+    offset of its outcome moved by `k`, is the step over the original memory at the moved context -/
+theorem step_shift (k : Nat) (lax : Bool) (g : Mem) (p : Packet) (t : Tag) (c : Ctx) :
+    step lax g (shPacket k p) t (shCtx k c) = shStepR k (step lax (shM k g) p t c) :=
+  step_shift_gen k g (shM k g) (fun _ => rfl) lax p c (shCtx k c) (shC_shCtx k c) t
+
 end EpModel.Spec
